@@ -1535,7 +1535,9 @@ class NiftiWrapper(object):
         path : str
             The path to the Nifti file to load.
         '''
-        return klass(nb.load(path))
+        #Do not memory map the data, the wrapper may well be written back
+        #over the file it was loaded from
+        return klass(nb.load(path, mmap=False))
 
     @classmethod
     def from_dicom_wrapper(klass, dcm_wrp, meta_dict=None):
